@@ -34,6 +34,12 @@ python3 - <<PY
 import json
 m=json.load(open("$DST/meta.json"))
 m["confirmed"]={"demo_without_patch_exit":$r0,"build_exit":$rb,"demo_with_patch_exit":$r1,"existing_tests_exit":$rt}
-m.setdefault("our_check",{})["$TIER"]={"exit":$rc,"detected":$rc==1}
+import re
+out=open("$DST/check_$TIER.out").read()
+sigs=sorted(set(re.findall(r"oracle-failure (\S+?):",out)))
+broken=sorted(set(re.findall(r"broken\[(\w+)\]",out)))
+nf="no-failing-input-found" in out
+m.setdefault("our_check",{})["$TIER"]={"exit":$rc,"detected":$rc==1,"oracle_sigs":sigs,"broken":broken,"no_failing_input_found":nf}
+if $rc==1: m["caught_by"]=("oracle "+", ".join(sigs[:4]) if sigs else "")+(" + broken "+"/".join(broken) if broken else "")
 json.dump(m,open("$DST/meta.json","w"),indent=1)
 PY
